@@ -81,6 +81,7 @@ def section_rotvec_trig(rep, mutate=None):
     n2z = z3.Real('v0') * z3.Real('v0') + z3.Real('v1') * z3.Real('v1') + z3.Real('v2') * z3.Real('v2')
     S.C.dom += [z3.Real(n) >= -4 for n in ('v0', 'v1', 'v2')] + [z3.Real(n) <= 4 for n in ('v0', 'v1', 'v2')]
     results = {}
+    since = len(S.C.divs)
 
     def body():
         R = S.symnp.empty((3, 3))
@@ -88,6 +89,7 @@ def section_rotvec_trig(rep, mutate=None):
         return R
     ex = paths.Exec(S.C.dom)
     res, _ = ex.run(body)
+    section_rotvec_trig.defined = enga.definedness(S.C, since, 'rotvec: every divisor is non-zero on its branch', {'check': 'rotvec'}, 'mat_from_rotvec: ')
     out = []
     for pr in res:
         if pr.status != 'ok':
@@ -247,6 +249,7 @@ def _rotvec_all(rep, mutate=None):
         else:
             obls += obligations_taylor(R, v, pc)
             kinds.add('taylor')
+    obls += section_rotvec_trig.defined
     return obls, kinds
 
 
@@ -368,11 +371,17 @@ def replay(spec):
         # the point itself, then the same direction at norms swept log-uniformly over [1e-9, pi]
         # (the property quantifies over every rotation vector, continuously across the branch)
         worst, at = 0.0, v
-        for n_ in [nv] + list(np.exp(np.linspace(np.log(1e-9), np.log(np.pi), 600))):
+        norms = [nv] + list(np.exp(np.linspace(np.log(1e-9), np.log(np.pi), 600))) + [np.pi - 10.0 ** -k for k in range(1, 16)] + [np.pi]
+        for n_ in norms:
             w_ = u * n_
             R = np.empty((3, 3))
-            _numba_integrate.mat_from_rotvec(w_, R)
+            try:
+                _numba_integrate.mat_from_rotvec(w_, R)
+            except Exception as e:      # noqa: BLE001 - a rotation vector is a legal argument whatever its norm
+                return {'violated': True, 'detail': 'mat_from_rotvec raises %s: %s at v=%s (|v|=%.17g)' % (type(e).__name__, e, w_.tolist(), n_)}
             err = np.abs(R - Rotation.from_rotvec(w_).as_matrix()).max()
+            if not np.isfinite(err):
+                err = np.inf
             if err > worst:
                 worst, at = err, w_
         return {'violated': bool(worst > 2e-15), 'detail': 'mat_from_rotvec differs from exp([v x]) by %.3g at v=%s (|v|=%.4g)' % (worst, at.tolist(), np.linalg.norm(at))}
